@@ -402,9 +402,70 @@ def canon(box: dict[str, Any]) -> Any:
     return (tuple(c(o) for o in box["ops"]), box["status"], tuple(box.get("attempt_log", ())), tuple(box.get("wire", ())))
 
 
+def conform(item: dict[str, Any], res: Result) -> None:
+    """Loss-model conformance: the same cut scenario (mode A, benign schedule) on the virtual stream and on a real
+    loopback TCP connection with a real shutdown / SO_LINGER reset must give the same outcome classes."""
+    from vf.engine.realnet import run_real
+
+    proto, cut, kind = item["proto"], item["cut"], item["kind"]
+    tmo = item.get("timeout")
+    box: dict[str, Any] = {}
+    run_once(build(item, box), [], POLICY)
+
+    def shape(ops: list[tuple[Any, ...]]) -> list[tuple[Any, ...]]:
+        out = []
+        for o in ops:
+            if o[0] in ("connect", "close", "close2"):
+                out.append((o[0], o[3]))
+            else:
+                out.append((o[0], o[3], o[4] if o[3] == "ok" and isinstance(o[4], bytes | int) else None))
+        return out
+
+    virt = shape(box["ops"])
+    st: dict[str, Any] = {}
+
+    async def client(host: str, port: int) -> list[tuple[Any, ...]]:
+        ops: list[tuple[Any, ...]] = []
+        loop = asyncio.get_running_loop()
+
+        async def op(name: str, coro: Any) -> Any:
+            ts = loop.time()
+            try:
+                r = await coro
+                ops.append((name, ts, loop.time(), "ok", r))
+                return r
+            except BaseException as e:  # noqa: BLE001
+                ops.append((name, ts, loop.time(), *classify(e)))
+                return None
+
+        u = uri(proto).replace("192.0.2.1:6801", f"{host}:{port}").replace("192.0.2.1:13400", f"{host}:{port}").replace("192.0.2.1:1234", f"{host}:{port}")
+        tr = await op("connect", G[proto].connect(u))
+        if tr is None:
+            return ops
+        await op("write", tr.write(REQ, timeout=tmo))
+        await op("read", tr.read(timeout=tmo))
+        await op("close", tr.close())
+        await op("close2", tr.close())
+        return ops
+
+    try:
+        real_ops, _ = run_real(lambda n: GoodPeer(proto, cut, kind, st), client, gap=0.02, timeout=60.0)
+        real = shape(real_ops)
+    except Exception as e:  # noqa: BLE001
+        real = [("harness", "exc:" + type(e).__name__)]
+    res.count("conformance_replays")
+    res.count("executions")
+    if real != virt:
+        res.count("conformance_disagreements")
+        res.notes.setdefault("conformance_disagreement_samples", []).append(f"{item}: virtual {virt} real {real}"[:600])
+
+
 def run_item(work: tuple[Any, ...]) -> Result:
     item, bound, cap = work
     res = Result()
+    if item.get("conform"):
+        conform(item, res)
+        return res
     box: dict[str, Any] = {}
 
     def scenario(run: Run) -> None:
@@ -461,6 +522,11 @@ def items(tier: str, seed: int) -> list[Any]:
                         out.append(
                             ({"proto": proto, "cut": cut, "kind": kind, "mode": "B", "timeout": 2.0, "delay": delay, "max_retry": mr}, min(bound, 1), cap)
                         )
+    # conformance of the loss model against real loopback sockets (few: real seconds)
+    conf = [("tcp", 0, "eof"), ("tcp", 4, "eof"), ("tcp", 13, "eof"), ("tcp", 5, "rst"), ("doip", 17, "eof"), ("doip", 40, "rst"),
+            ("hsfz", 10, "eof"), ("hsfz", 25, "eof"), ("doip", 51, "eof"), ("hsfz", 3, "rst")]
+    for proto, cut, kind in conf if not quick else conf[:7]:
+        out.append(({"proto": proto, "cut": cut, "kind": kind, "mode": "A", "timeout": 2.0, "conform": True}, 0, cap))
     return out
 
 
@@ -484,7 +550,11 @@ def finish(merged: Result, tier: str) -> dict[str, Any]:
     if not c.get("recoveries_observed"):
         raise Broken("vacuous: no execution in which a request recovered through a reconnect")
     capped = c.get("capped_items", 0)
-    return {"exhaustive": capped == 0, "capped_scenarios": capped, "deviation_bound": 1 if tier == "quick" else 2,
+    if not c.get("conformance_replays"):
+        raise Broken("no conformance replay ran")
+    if c.get("conformance_disagreements") and not merged.violations:
+        raise Broken(f"loss model disagrees with real sockets: {merged.notes.get('conformance_disagreement_samples', [])[:2]}")
+    return {"conformance_replays": c.get("conformance_replays", 0), "exhaustive": capped == 0, "capped_scenarios": capped, "deviation_bound": 1 if tier == "quick" else 2,
             "stream_lengths": {p: len(full_stream(p)) for p in ("tcp", "unix", "doip", "hsfz")}}
 
 
